@@ -989,7 +989,7 @@ func genHarden(g *hx.Gen) {
 		g.Emit("k:corpus;" + s[0] + ";cls=" + s[1] + " " + seedTok() + " count=40")
 	}
 	total := g.Pick(1500, 12000)
-	hub := g.Pick(24000, 120000)
+	hub := g.Pick(24000, 80000)
 	for i := 0; i < total+hub; i++ {
 		forceHub := i >= total
 		var gr *cx.G
